@@ -91,11 +91,30 @@ def table_for(is_right: bool, swap: bool, reverse: bool):
     return {FACE: {0: {AX: tuple(f0)}, 1: {b_axis: tuple(f1)}}}
 
 
-def run(P, table, vector=None, widths=None, padding=None, n_faces=2, other_component="auto", dims_scalar=None):
+def table_pair(left, right):
+    """Three-face table: face 0 has a left link of kind `left` = (swap, reverse) to face 1 and a right link of kind
+    `right` to face 2 (None = no link); faces 1 and 2 hold the reciprocal links."""
+    t = {0: {AX: [None, None]}, 1: {}, 2: {}}
+    for side, kind, nb in ((0, left, 1), (1, right, 2)):
+        if kind is None:
+            continue
+        swap, rev = kind
+        b_axis = AY if swap else AX
+        t[0][AX][side] = (nb, b_axis, rev)
+        back = [None, None]
+        back[reciprocal_side(side, rev)] = (0, AX, rev)
+        t[nb][b_axis] = tuple(back)
+    t[0][AX] = tuple(t[0][AX])
+    return {FACE: t}
+
+
+def run(P, table, vector=None, widths=None, padding=None, n_faces=2, other_component="auto", dims_scalar=None, partner_dims_swapped=False, prune=False):
     """vector: None (scalar), 'parallel' (component along AX, the padded axis) or 'tangential' (component along AY)."""
     w = Lin.sym("w")
+    # prune: the coordinate-bookkeeping test (`<dim> in <slice>.coords`) is taken as False; it does not influence
+    # which cells are selected (the unpruned runs check that both arms agree) and only multiplies the paths
     ev = Evaluator(P, models={"padding:_pad_basic": m_pad_basic, "xarray.concat": m_concat}, method_models=method_models(),
-                   attr_models=attr_models(), facts=dict(FACTS))
+                   attr_models=attr_models(), facts=dict(FACTS), assume_false=(".coords",) if prune else ())
     fi = P.func("padding:_pad_face_connections")
 
     def mk(name, dims):
@@ -109,6 +128,11 @@ def run(P, table, vector=None, widths=None, padding=None, n_faces=2, other_compo
         else:
             U = [Sym("t"), FACE, dimsym("AY", "center"), dimsym("AX", "left")]
             V = [Sym("t"), FACE, dimsym("AY", "left"), dimsym("AX", "center")]
+            if partner_dims_swapped:  # the two components store their horizontal dimensions in different order
+                if vector == "parallel":
+                    V = [Sym("t"), FACE, dimsym("AX", "center"), dimsym("AY", "left")]
+                else:
+                    U = [Sym("t"), FACE, dimsym("AX", "left"), dimsym("AY", "center")]
             if vector == "parallel":
                 da = {AX: mk("MAIN", U)}
                 oc = {AY: mk("PARTNER", V)}
